@@ -217,6 +217,22 @@ CLAIMED = {
              "freshness of solver objects decided by the translator). Cases in which GLPK aborts the process are counted, not judged.",
         technique="Lean 4 proof (soundness of an effect check + generated effect summaries) + run-time validation of the translation + state comparison on the real code",
         design="DESIGN.md section 5, C13"),
+    "C14": dict(
+        engine="schedule",
+        text="Lean 4: workers as sequential runs of tasks (state -> result x state) from a common initial state; schedule_independent: for every number of "
+             "workers, chunking, assignment, completion order and permutation of the requested items, the collected results are a permutation of the "
+             "stand-alone results, provided every task leaves the worker's model equivalent to the initial one (Stable + Const); lookup_eq_alone, "
+             "every_item_answered; the premise holds for the two task shapes of the code (fva_task_stable: set coefficient, solve, reset; "
+             "deletion_task_stable: knock-out inside a context) for an arbitrary deterministic solver, and carry_over_breaks shows it is needed. "
+             "roundUp lemmas (>= n, multiple of p, < n + p, exact on multiples) and distinct chain seeds for OptGP. On the real code the pool worker "
+             "functions are wrapped before the pool forks (seeded per-task delays, (pid, task) logs): FVA, blocked / essential searches, single and "
+             "double deletions with processes 1..8, permuted item lists and delay seeds are compared with each other and with asking for each item alone; "
+             "parallel OptGP: row count against the Lean roundUp (line driver), every sample valid, reproducible for fixed seed and process count.",
+        note="Partial by nature: real OS scheduling, pickling of the model into workers and GLPK warm-start state are explored (seeded delays, process "
+             "counts, permutations; schedules taken are logged), not proved. Trusted: Lean kernel, standard axioms; the abstraction of the worker as a "
+             "sequential state machine; that the real tasks satisfy the premise is the subject of C05 / C13.",
+        technique="Lean 4 proof (schedule independence under a restoring-task premise, rounding lemmas) + explored schedules on the real code",
+        design="DESIGN.md section 5, C14"),
 }
 
 PENDING_REASON = "check under construction in this session (see DESIGN.md section 9 build order); not claimed until its Lean model, theorems and correspondence exist"
@@ -265,6 +281,8 @@ def main():
              "kind_free_text": "translate_copy.py (AST of Model.copy -> Gen/CopySpec.lean), object-graph walker, edit histories on original and copy"},
             {"name": "effects", "path": "harness/c13.py", "serves_properties": ["C13"],
              "kind_free_text": "translate_effects.py (AST of the analyses -> Gen/EffectTable.lean), run-time write recorder, before/after state comparison in isolated child processes"},
+            {"name": "schedule", "path": "harness/c14.py", "serves_properties": ["C14"],
+             "kind_free_text": "Lean Schedule model + driver, wrapped pool workers (delays, pid logs), cross-schedule comparison in isolated child processes"},
             {"name": "gpr", "path": "harness/c08.py", "serves_properties": ["C08"],
              "kind_free_text": "Lean model GPRM (rule trees, parser, remover) + generated escape tables + correspondence against cobra.core.gene.GPR"},
         ],
